@@ -22,6 +22,9 @@ type c01Client struct {
 	V    int       `json:"v"`
 	Subs []subSpec `json:"subs"`
 	RM   int       `json:"receive_max,omitempty"` // v5: Receive Maximum declared in CONNECT (0 = absent)
+	// TAM: v5 Topic Alias Maximum declared in CONNECT (0 = absent): the broker may replace topic names by aliases on this
+	// connection; the client resolves them like a real client does and every message must resolve to the topic it was published to
+	TAM int `json:"topic_alias_max,omitempty"`
 }
 
 type c01Pub struct {
@@ -52,6 +55,7 @@ func genC01(t *rapid.T) c01Scen {
 		c := c01Client{V: rapid.SampledFrom([]int{3, 4, 5, 5, 5}).Draw(t, "v")}
 		if c.V == 5 {
 			c.RM = rapid.SampledFrom([]int{0, 0, 0, 1, 2, 5}).Draw(t, "rm")
+			c.TAM = rapid.SampledFrom([]int{0, 0, 1, 2, 3}).Draw(t, "tam")
 		}
 		ns := rapid.IntRange(0, 4).Draw(t, "nsubs")
 		for j := 0; j < ns; j++ {
@@ -238,6 +242,14 @@ func runC01(s c01Scen, c *ev.Case) *ev.Violation {
 			co.Props = &mw.Props{ReceiveMax: u16p(uint16(cs.RM))}
 			c.Label("small_receive_maximum")
 		}
+		if cs.V == 5 && cs.TAM > 0 {
+			if co.Props == nil {
+				co.Props = &mw.Props{}
+			}
+			co.Props.TopicAliasMax = u16p(uint16(cs.TAM))
+			co.ResolveAliases = true
+			c.Label("subscriber_accepts_topic_aliases")
+		}
 		cl, ack, err := b.Connect(co)
 		if err != nil || ack == nil || ack.ReasonCode != 0 {
 			return ev.Violf("C01.connect", "client %d: CONNECT failed: %v %v", i, ack, err)
@@ -271,8 +283,12 @@ func runC01(s c01Scen, c *ev.Case) *ev.Violation {
 	// verify compares what client i received with the delivery model for everything published so far
 	nontrivial := false
 	verified := make([]bool, len(clients))
+	aliasTab := make([]map[uint16]string, len(s.Clients)) // per connection: topic alias -> topic name, as the client binds them
 	verify := func(i int) *ev.Violation {
 		cl := clients[i]
+		if aliasTab[i] == nil {
+			aliasTab[i] = map[uint16]string{}
+		}
 
 		var want []delivery
 		ambiguous := map[string]bool{}
@@ -324,6 +340,26 @@ func runC01(s c01Scen, c *ev.Case) *ev.Violation {
 				d.SubIDs = p.Props.SubscriptionIDs
 			}
 			got = append(got, d)
+			// the topic the message arrives under (topic aliases resolved as the client would) is the one it was published to
+			topic := p.Topic
+			if p.Props != nil && p.Props.TopicAlias != nil {
+				a := *p.Props.TopicAlias
+				if a == 0 || int(a) > s.Clients[i].TAM {
+					return ev.Violf("C01.topic-alias", "client %d (Topic Alias Maximum %d) received %s with topic alias %d", i, s.Clients[i].TAM, d.UID, a)
+				}
+				if topic == "" { // the client's table (fixture) had no binding for it
+					return ev.Violf("C01.topic-alias", "client %d received %s with an empty topic name and alias %d, which was never bound on this connection", i, d.UID, a)
+				}
+				aliasTab[i][a] = topic
+				if r.AliasResolved {
+					c.Label("topic_alias_resolved")
+				}
+			}
+			for _, r := range sent {
+				if r.uid == d.UID && r.pub.Topic != topic {
+					return ev.Violf("C01.topic", "client %d received message %s under topic %q, it was published to %q (alias table of the connection: %v)", i, d.UID, topic, r.pub.Topic, aliasTab[i])
+				}
+			}
 			// the application message is forwarded as published: a v5 subscriber sees the publisher's payload format,
 			// content type, response topic, correlation data and user properties (in order), and nothing invented
 			if s.Clients[i].V == 5 {
